@@ -28,6 +28,7 @@ type lmLine struct {
 	Ref int    `json:"ref"`
 }
 type lmEnt struct {
+	Opt  bool   `json:"opt"` // the probe may legitimately not be reached
 	Kind string `json:"kind"`
 	Line int    `json:"line"`
 	Code int    `json:"code"`
@@ -41,6 +42,15 @@ type lmFunc struct {
 }
 type lmCase struct {
 	FKind string   `json:"fkind"` // "xgo" (default) | "gox": the file is a normal class file Case<idx>.gox
+	// cl.Config.RelativeBase vs the directory of the file: same | unset | sibling | unrelated;
+	// Dir = directory part every //line directive must carry (model: filepath.Rel on components)
+	RelBase string `json:"relbase"`
+	Dir     struct {
+		Abs   bool     `json:"abs"`
+		Comps []string `json:"comps"`
+	} `json:"dir"`
+	FileDir []string `json:"filedir"`
+	BaseDir []string `json:"basedir"`
 	Text  []lmLine `json:"text"`
 	Ents  []lmEnt  `json:"ents"`
 	Funcs []lmFunc `json:"funcs"`
@@ -142,6 +152,20 @@ func (c *lmCase) render(idx int) string {
 			t = fmt.Sprintf("\tf%d_%d()", idx, l.Ref)
 		case "callmeth":
 			t = fmt.Sprintf("\t(&T%d{}).m%d()", idx, l.Ref)
+		case "casew":
+			t = fmt.Sprintf("\tcase where(%d):", gid(l.ID))
+		case "swbarehdr":
+			t = "\tswitch {"
+		case "casegt":
+			t = fmt.Sprintf("\tcase where(%d) > 0:", gid(l.ID))
+		case "casegt1":
+			t = fmt.Sprintf("\tcase where(%d) > 1:", gid(l.ID))
+		case "mkchan":
+			t = fmt.Sprintf("\tch%d := make(chan int, 1)", l.Ref)
+		case "selhdr":
+			t = "\tselect {"
+		case "selcase":
+			t = fmt.Sprintf("\tcase ch%d <- where(%d):", l.Ref, gid(l.ID))
 		case "laterhdr":
 			t = fmt.Sprintf("func later%d_%d(x int) int {", idx, l.Ref)
 		case "retx":
@@ -173,14 +197,24 @@ var lmSpec = batchSpec{
 		files["main.xgo"] = sb.String()
 		return files
 	},
-	Parse: func(stdout string) map[int][]string {
+	// the Go tool chain resolves a relative //line file name against the directory of the Go file
+	// (and trims that directory again if the result lies below it); undo both: every reported name is
+	// made absolute against the package directory, then re-expressed relative to it
+	ParseAt: func(stdout, pkgDir string) map[int][]string {
 		m := map[int][]string{}
 		for _, l := range strings.Split(stdout, "\n") {
 			var id, line int
 			var file string
 			if n, _ := fmt.Sscanf(l, "@ %d %s %d", &id, &file, &line); n == 3 {
 				idx := id / lmIDBase
-				m[idx] = append(m[idx], fmt.Sprintf("%d %s %d", id%lmIDBase, filepath.Base(file), line))
+				if !filepath.IsAbs(file) {
+					file = filepath.Join(pkgDir, file)
+				}
+				file = filepath.Clean(file)
+				if strings.HasPrefix(file, getRunner().Dir+string(filepath.Separator)) {
+					file = lmRelTo(pkgDir, file) // came from a relative directive
+				}
+				m[idx] = append(m[idx], fmt.Sprintf("%d %s %d", id%lmIDBase, file, line))
 			}
 		}
 		return m
@@ -234,6 +268,28 @@ func dwarfFuncLines(bin string) (map[string]int, error) {
 	return out, nil
 }
 
+// lmRelTo expresses an absolute path the way a //line file name relative to pkgDir would be written
+// (absolute paths outside any relation stay absolute only if Rel fails).
+func lmRelTo(pkgDir, abs string) string {
+	if r, err := filepath.Rel(pkgDir, abs); err == nil {
+		return filepath.ToSlash(r)
+	}
+	return abs
+}
+
+// expFile is the file name the model demands in every directive of the case, normalised like the
+// observations (absolute as is; relative names relative to the Go package directory).
+func (c *lmCase) expFile(idx int) string {
+	name := c.fileName(idx)
+	if c.RelBase == "" || c.RelBase == "same" {
+		return name
+	}
+	if c.Dir.Abs {
+		return "/" + strings.Join(append(append([]string{}, c.Dir.Comps...), name), "/")
+	}
+	return filepath.ToSlash(filepath.Join(append(append([]string{}, c.Dir.Comps...), name)...))
+}
+
 func runLineMap() {
 	mode := "comments"
 	if len(os.Args) > 2 {
@@ -251,18 +307,56 @@ func runLineMap() {
 	if mode == "comments" {
 		opt.ParseMode = parser.ParseComments // what tool/load.go uses
 	}
-	t0 := time.Now()
-	soloCompileSpec(units, opt, lmSpec)
-	fmt.Fprintf(errOut, "linemap: %d units compiled alone in %.1fs\n", len(units), time.Since(t0).Seconds())
-	var ok []*unit
-	for _, u := range units {
-		if u.SoloErr == "" {
-			ok = append(ok, u)
+	// one group of batch programs per RelativeBase configuration (a package has one base)
+	groups := map[string][]*unit{}
+	specOf := map[string]batchSpec{}
+	for i, u := range units {
+		c := &cases[i]
+		rb := c.RelBase
+		if rb == "" {
+			rb = "same"
 		}
+		if _, ok := specOf[rb]; !ok {
+			sp := lmSpec
+			if rb != "same" || len(c.FileDir) > 0 {
+				dir := "/mem"
+				if len(c.FileDir) > 0 {
+					dir = "/" + strings.Join(c.FileDir, "/")
+				}
+				base := dir
+				switch rb {
+				case "unset":
+					base = ""
+				case "sibling", "unrelated":
+					base = "/" + strings.Join(c.BaseDir, "/")
+				}
+				pm := opt.ParseMode
+				sp.CompileFn = func(files map[string]string) xgolib.Outcome { return compileAt(files, dir, base, pm, false) }
+			}
+			specOf[rb] = sp
+		}
+		groups[rb] = append(groups[rb], u)
 	}
-	t0 = time.Now()
-	outs := runBatchesSpec(ok, 100, opt, 8, lmSpec)
-	fmt.Fprintf(errOut, "linemap: batches run in %.1fs\n", time.Since(t0).Seconds())
+	outs := map[int]*batchOutcome{}
+	for _, rb := range []string{"same", "unset", "sibling", "unrelated"} {
+		us := groups[rb]
+		if len(us) == 0 {
+			continue
+		}
+		t0 := time.Now()
+		soloCompileSpec(us, opt, specOf[rb])
+		var ok []*unit
+		for _, u := range us {
+			if u.SoloErr == "" {
+				ok = append(ok, u)
+			}
+		}
+		t1 := time.Now()
+		for k, v := range runBatchesSpec(ok, 100, opt, 8, specOf[rb]) {
+			outs[k] = v
+		}
+		fmt.Fprintf(errOut, "linemap[%s]: %d units compiled alone in %.1fs, batches run in %.1fs\n", rb, len(us), t1.Sub(t0).Seconds(), time.Since(t1).Seconds())
+	}
 	for i := range cases {
 		c := &cases[i]
 		u := units[i]
@@ -285,8 +379,8 @@ func runLineMap() {
 			}
 		}
 		res := hlib.Result{Idx: i, V: "ok", Input: map[string]any{"file": src, "mode": mode, "name": c.fileName(i)},
-			NT: c.FKind + ":" + strings.Join(kinds, ",") + "/" + gaps}
-		file := c.fileName(i)
+			NT: c.FKind + ":" + c.RelBase + ":" + strings.Join(kinds, ",") + "/" + gaps}
+		file := c.expFile(i)
 		o := outs[i]
 		switch {
 		case u.SoloErr != "":
@@ -324,6 +418,9 @@ func runLineMap() {
 				code := fmt.Sprintf("%s:%d", file, e.Code)
 				got := sortedKeys(obs[id])
 				seen = append(seen, fmt.Sprintf("%d@%s", id, strings.Join(got, "|")))
+				if len(got) == 0 && e.Opt {
+					continue // body of a clause the driver does not take
+				}
 				if len(got) == 0 {
 					set(10, "viol", "probe-not-reached:"+e.Kind, fmt.Sprintf("probe %d (%s) printed nothing\n%s", id, e.Kind, src))
 					continue
@@ -354,6 +451,15 @@ func runLineMap() {
 						case ln > e.Line:
 							rel = "later"
 						}
+					}
+					if rel == "wrong-file" {
+						rb := c.RelBase
+						if rb == "" {
+							rb = "same"
+						}
+						set(8, "viol", "file-name:relbase="+rb, fmt.Sprintf("probe %d (%s in %s): runtime.Caller reports %v; the file is %s (source directory /%s, RelativeBase %q)\n%s",
+							id, e.Kind, e.Ctx, got, want, strings.Join(c.FileDir, "/"), "/"+strings.Join(c.BaseDir, "/"), numbered(src)))
+						continue
 					}
 					set(8, "viol", fmt.Sprintf("stmt-line:%s:%s:%s", e.Kind, e.Ctx, rel),
 						fmt.Sprintf("probe %d (%s in %s): runtime.Caller reports %v, the statement is written at %s\n%s", id, e.Kind, e.Ctx, got, want, numbered(src)))
